@@ -98,6 +98,7 @@ class Machine:
         self.max_steps = max_steps
         self.overflow_log = []      # (source state, action) of out-of-space redirects in the current call
         self.cond_break_log = []    # breaks taken inside a conditional action in the current call
+        self.handler_log = []       # error-handling transitions taken (mismatch handed to a handler) in the current call
         self._cur_source = None
         self.needs_end_check = self.zero_len or any(
             any(a.may_return_early() for a in t.actions) for s in self._reachable() for t in s.transitions)
@@ -382,6 +383,7 @@ class Machine:
         steps = 0
         self.overflow_log = []
         self.cond_break_log = []
+        self.handler_log = []
         while True:
             steps += 1
             if steps > self.max_steps:
@@ -411,6 +413,8 @@ class Machine:
                     return Result(DONE if self.is_accepting(st) else OK, ptr, events, stuck=True)
             # ---- transition body
             self._cur_source = st
+            if getattr(t, "error_handling", False) and t.is_fallthrough:
+                self.handler_log.append(st)
             target_known = id(t.target) in self.index
             if target_known:
                 cfg.state = t.target
